@@ -43,7 +43,7 @@ HEADER_TO_LIB = {"Servo.h": "Servo", "LiquidCrystal.h": "LiquidCrystal", "Liquid
 KNOWN_HEADERS = set(HEADER_TO_LIB) | {"Arduino.h", "Wire.h", "cstring"}
 
 
-def build(n_servo_setup: int, n_servo_loop: int, n_par: int, n_i2c: int, others: Sequence[str], animate: bool, lcd_order: str) -> dict:
+def build(n_servo_setup: int, n_servo_loop: int, n_par: int, n_i2c: int, others: Sequence[str], animate: bool, lcd_order: str, addr0: str = "39", header: str = "while True:") -> dict:
     setup: List[str] = []
     loop: List[str] = []
     loop_decls: List[str] = []
@@ -57,7 +57,7 @@ def build(n_servo_setup: int, n_servo_loop: int, n_par: int, n_i2c: int, others:
         loop.append(f"sb{i}.write(45)")
         pin += 1
     par = [f"lp{i} = LCD(rs={30 + 6 * i}, en={31 + 6 * i}, d4={32 + 6 * i}, d5={33 + 6 * i}, d6={34 + 6 * i}, d7={35 + 6 * i})" for i in range(n_par)]
-    i2c = [f"li{i} = LCD(i2c_addr={39 - i})" for i in range(n_i2c)]
+    i2c = [f"li{i} = LCD(i2c_addr={addr0 if i == 0 else 39 - i})" for i in range(n_i2c)]
     lcds = par + i2c if lcd_order == "par-first" else i2c + par
     setup += lcds
     for i in range(n_par):
@@ -71,7 +71,7 @@ def build(n_servo_setup: int, n_servo_loop: int, n_par: int, n_i2c: int, others:
         setup.append(OTHERS[o][0])
         loop.append(OTHERS[o][1])
     body = loop_decls + loop + ["sleep(5)"]
-    src = IMPORTS + "\n".join(setup) + ("\n" if setup else "") + "while True:\n" + "\n".join("    " + ln for ln in body) + "\n"
+    src = IMPORTS + "\n".join(setup) + ("\n" if setup else "") + header + "\n" + "\n".join("    " + ln for ln in body) + "\n"
     want = set()
     if n_servo_setup + n_servo_loop:
         want.add("Servo")
@@ -79,7 +79,8 @@ def build(n_servo_setup: int, n_servo_loop: int, n_par: int, n_i2c: int, others:
         want.add("LiquidCrystal")
     if n_i2c:
         want.add("LiquidCrystal_I2C")
-    return {"src": src, "want": sorted(want), "desc": {"servo_setup": n_servo_setup, "servo_loop": n_servo_loop, "parallel": n_par, "i2c": n_i2c, "others": list(others), "animate": animate, "lcd_order": lcd_order}}
+    return {"src": src, "want": sorted(want), "desc": {"servo_setup": n_servo_setup, "servo_loop": n_servo_loop, "parallel": n_par, "i2c": n_i2c, "others": list(others), "animate": animate, "lcd_order": lcd_order,
+                                                        "i2c_addr0": addr0, "loop_header": header}}
 
 
 def generate(tier: str) -> List[dict]:
@@ -93,6 +94,17 @@ def generate(tier: str) -> List[dict]:
                         orders = ("par-first", "i2c-first") if (n_par and n_i2c) else ("par-first",)
                         for order in orders:
                             cases.append(build(ss, sl, n_par, n_i2c, others, animate, order))
+    # spellings: the first I2C address written as 0 / hex / a constant expression; the main loop header with redundant
+    # parentheses, spaces or a trailing comment (servos declared at the top of the body depend on that header)
+    for ss, sl in [(a, b) for a in range(3) for b in range(3) if a + b <= 2]:
+        for n_par in range(2):
+            for n_i2c in range(3):
+                for addr0 in (("39", "0", "0x00", "0x27", "0b0", "32 + 7", "00") if n_i2c else ("39",)):
+                    for header in ("while True:", "while (True):", "while ( True ) :", "while(True):", "while True:  # forever", "while  True :"):
+                        if addr0 == "39" and header == "while True:":
+                            continue
+                        for animate in ((False, True) if (n_par or n_i2c) and tier == "thorough" else (False,)):
+                            cases.append(build(ss, sl, n_par, n_i2c, (), animate, "par-first", addr0, header))
     return cases
 
 
